@@ -489,6 +489,8 @@ def run(prog, ctx):
     n_z = 0
     n_z += C.coupled_store_rule(res, prog, "C04.Z", "theta::hash_table::ThetaHashTable", "entries", "lg_cur_size")
     res.rule("C04.Z", n_z, 0, "table / size field pairs")
+    # floating-point items are canonicalised the way Java's doubleToLongBits does (C16.D, by value)
+    C.import_rules(res, prog, ctx, "C04.S.f64", "C16", ("C16.D",), "the item a theta sketch hashes for a double", 0, key_filter=lambda k: "f64|theta::" in k)
     res.explanation = ("structural rules over the %d functions reachable from ThetaSketch::{update,trim,reset,compact} and the builder: screen formula, "
                        "theta writers, insert/count pairing, capacity check post-domination and thresholds, probe geometry at call sites, replay loops, "
                        "trim/reset" % len(reach))
